@@ -128,6 +128,18 @@ QosResumeNext == steps < MaxSteps /\
   \/ \E how \in {"disconnect", "cut"} : End(c1, how)
 QosResumeSpec == QosInit /\ [][QosResumeNext]_vars
 
+(* C02 / C08, a QoS 2 PUBLISH with the RETAIN flag: it becomes the retained message of its topic when it is handed on, at
+   PUBREL time, not when the PUBLISH arrives - a subscription made between PUBLISH and PUBREL gets what was retained
+   before, and the message itself once, live, at the PUBREL.  All paths over two exchanges, a network re-subscription of
+   the witness and an in-process subscription in between                                                           *)
+RetQ2Next == steps < MaxSteps /\
+  \/ QosConn
+  \/ \E id \in {1, 2} : Publish2(c1, <<"a">>, TRUE, IF id = 1 THEN "x" ELSE "y", id, FALSE)
+  \/ \E id \in {1, 2} : Pubrel(c1, id)
+  \/ Subscribe(c2, 3, << <<<<"a">>, 2>> >>)
+  \/ ApiSubscribe(L1, <<"a">>, 1)
+RetQ2Spec == QosInit /\ [][RetQ2Next]_vars
+
 (* C02, many QoS 2 exchanges open at once (the incoming queue grows beyond its 16 entries, also after its head has
    moved): long random behaviours generated with TLC -simulate                                               *)
 Q2Open == {sess[k1].p2in[i].id : i \in 1..Len(sess[k1].p2in)}
